@@ -16,7 +16,7 @@ import re
 import json
 
 from rustlex import (code_mask, match_brace, find_item, line_of, norm_ws,
-                     AnchorLost)
+                     AnchorLost, items_in)
 
 
 class Unsupported(Exception):
@@ -588,6 +588,71 @@ def rule_R23_map_or(text, log):
 
 
 
+def rule_R25_filter_count(text, log):
+    """`RECV.iter().filter(|PAT| COND).count()`  ->  `{ let mut vx_n: usize = 0; for PAT in RECV.iter() { if COND { vx_n += 1; } } vx_n }`
+    (definition of filter + count; the closure pattern binds through the reference exactly as the for pattern does)"""
+    out = text
+    rx = re.compile(r'\.\s*iter\(\)\s*\.\s*filter\s*\(')
+    while True:
+        mask = code_mask(out)
+        mm = next((m for m in rx.finditer(out) if mask[m.start()]), None)
+        if not mm:
+            return out
+        op = mm.end() - 1
+        cl = match_brace(out, mask, op)
+        tail = re.match(r'\s*\.\s*count\s*\(\s*\)', out[cl + 1:])
+        if not tail:
+            raise Unsupported('R25: filter(..) not followed by count()')
+        clo = out[op + 1:cl].strip()
+        if not clo.startswith('|'):
+            raise Unsupported('R25: filter argument is not a closure')
+        j = 1
+        depth = 0
+        while j < len(clo):
+            c = clo[j]
+            if c in '([':
+                depth += 1
+            elif c in ')]':
+                depth -= 1
+            elif c == '|' and depth == 0:
+                break
+            j += 1
+        pat = clo[1:j].strip()
+        pat = re.sub(r'^&\s*', '', pat)
+        cond = clo[j + 1:].strip()
+        rs = _recv_start(out, mask, mm.start())
+        recv_n = re.sub(r'\s*\.\s*', '.', norm_ws(out[rs:mm.start()]))
+        end = cl + 1 + tail.end()
+        new = '{ let mut vx_n: usize = 0; for %s in %s.iter() { if %s { vx_n += 1; } } vx_n }' % (pat, recv_n, cond)
+        pad = '\n' * max(0, out[rs:end].count('\n') - new.count('\n'))
+        log.append(('R25', norm_ws(out[rs:end])[:120], norm_ws(new)[:160]))
+        out = out[:rs] + new + pad + out[end:]
+
+
+def rule_R26_option_tests(text, log):
+    """`OPT.is_none_or(|P| B)` -> `(match OPT { None => true, Some(P) => B })`; `OPT.is_some_and(|P| B)` -> `(match OPT { None => false, Some(P) => B })`"""
+    out = text
+    rx = re.compile(r'\.\s*(is_none_or|is_some_and)\s*\(\s*\|')
+    while True:
+        mask = code_mask(out)
+        mm = next((m for m in rx.finditer(out) if mask[m.start()]), None)
+        if not mm:
+            return out
+        op = out.index('(', mm.start())
+        cl = match_brace(out, mask, op)
+        clo = out[op + 1:cl].strip()
+        j = clo.index('|', 1)
+        pat = clo[1:j].strip()
+        body = clo[j + 1:].strip()
+        rs = _recv_start(out, mask, mm.start())
+        recv = out[rs:mm.start()]
+        new = '(match %s { None => %s, Some(%s) => %s })' % (recv, 'true' if mm.group(1) == 'is_none_or' else 'false', pat, body)
+        pad = '\n' * max(0, out[rs:cl + 1].count('\n') - new.count('\n'))
+        log.append(('R26', norm_ws(out[rs:cl + 1])[:120], norm_ws(new)[:160]))
+        out = out[:rs] + new + pad + out[cl + 1:]
+
+
+
 def rule_R5_labelled_for(text, log):
     """'l: for _ in 0..n { B }  ->  { let mut vx_i: usize = 0; 'l: while vx_i < n { vx_i += 1; B } }
     only for the shape `'l: for _ in 0..<ident> {` (counter unused)"""
@@ -801,6 +866,218 @@ def rule_R10_inspect_err(text, log):
         out = out[:j + 1] + new + out[k + 1:]
 
 
+# --------------------------------------------------------------------------
+# R24: a call of a repository function that is not under contract (a helper a change has just introduced) is
+# replaced by the helper's body with its parameters bound to the arguments (definition of a call).  Only for
+# helpers without `return`, without generics and without recursion; a helper that uses `?` is inlined only at
+# call sites that apply `?` to its result themselves.
+# --------------------------------------------------------------------------
+
+def _all_fns(src, mask, lo, hi, acc, owner=None):
+    for it in items_in(src, mask, lo, hi):
+        if it.kind == 'fn' and it.body_start is not None:
+            acc.append((it, owner))
+        elif it.kind in ('impl', 'mod') and it.body_start is not None:
+            hdr = it.header
+            if 'cfg(test)' in src[it.attrs_start:it.start] or (it.kind == 'mod' and it.name == 'tests'):
+                continue
+            _all_fns(src, mask, it.body_start + 1, it.end - 1, acc, it if it.kind == 'impl' else owner)
+
+
+def _find_helper(unit, rel, name):
+    """definition of `fn name` with a body: in the calling function's own file first, then anywhere under src/"""
+    cands = []
+    files = [rel]
+    root = os.path.join(unit.repo, 'src')
+    for dp, _dn, fns in os.walk(root):
+        for f in sorted(fns):
+            if f.endswith('.rs'):
+                r = os.path.relpath(os.path.join(dp, f), unit.repo)
+                if r != rel:
+                    files.append(r)
+    for r in files:
+        try:
+            src, mask = unit.src(r)
+        except AnchorLost:
+            continue
+        if not re.search(r'\bfn\s+%s\b' % re.escape(name), src):
+            continue
+        acc = []
+        _all_fns(src, mask, 0, len(src), acc)
+        here = [(it, ow) for it, ow in acc if it.name == name]
+        if here:
+            cands.extend((r, src, mask, it, ow) for it, ow in here)
+            if r == rel:
+                break
+    if len(cands) != 1:
+        return None
+    return cands[0]
+
+
+def _split_params(plist):
+    parts = []
+    depth = 0
+    last = 0
+    for i, c in enumerate(plist):
+        if c in '([{<':
+            depth += 1
+        elif c in ')]}' or (c == '>' and plist[i - 1] != '-'):
+            depth -= 1
+        elif c == ',' and depth == 0:
+            parts.append(plist[last:i])
+            last = i + 1
+    parts.append(plist[last:])
+    return [q.strip() for q in parts if q.strip()]
+
+
+def rule_R24_inline(unit, rel, text, ctx):
+    names = getattr(unit, 'inline_names', None)
+    if not names:
+        return text
+    out = text
+    for name in sorted(names):
+        guard = 0
+        while True:
+            guard += 1
+            if guard > 20:
+                raise Unsupported('R24: inlining of %s did not terminate' % name)
+            mask = code_mask(out)
+            mm = next((m for m in re.finditer(r'(?<![\w])%s\s*\(' % re.escape(name), out)
+                       if mask[m.start()] and not re.search(r'\bfn\s+$', out[:m.start()])), None)
+            if not mm:
+                break
+            found = _find_helper(unit, rel, name)
+            if found is None:
+                raise Unsupported('R24: no unique definition of fn %s in the repository' % name)
+            hrel, hsrc, hmask, it, owner = found
+            header = hsrc[it.start:it.body_start]
+            if re.search(r'\bfn\s+%s\s*<' % re.escape(name), header) or re.search(r'\bimpl\b', header[re.search(r'\bfn\b', header).end():]) or 'async' in header.split('fn')[0]:
+                raise Unsupported('R24: helper %s is generic / async' % name)
+            hbody = hsrc[it.body_start + 1:it.end - 1]
+            hbm = hmask[it.body_start + 1:it.end - 1]
+            code = ''.join(c if hbm[k] else ' ' for k, c in enumerate(hbody))
+            if re.search(r'\breturn\b', code):
+                raise Unsupported('R24: helper %s uses return' % name)
+            if re.search(r'(?<![\w])%s\s*\(' % re.escape(name), code):
+                raise Unsupported('R24: helper %s is recursive' % name)
+            op = hsrc.index('(', re.compile(r'\bfn\s+%s\b' % re.escape(name)).search(hsrc, it.start).end())
+            cp = match_brace(hsrc, hmask, op)
+            params = _split_params(hsrc[op + 1:cp])
+            # call site: arguments and receiver
+            aop = mm.end() - 1
+            acl = match_brace(out, mask, aop)
+            args = _split_params(out[aop + 1:acl])
+            start = mm.start()
+            recv = None
+            pre = out[:start].rstrip()
+            if pre.endswith('::'):
+                # path call: Self::name( / module::name(
+                q = len(pre) - 2
+                while q > 0 and (out[q - 1].isalnum() or out[q - 1] in '_:'):
+                    q -= 1
+                start = q
+            elif pre.endswith('.'):
+                dot = len(pre) - 1
+                rs = _recv_start(out, mask, dot)
+                recv = out[rs:dot].strip()
+                start = rs
+            binds = []
+            pnames = []
+            if params and re.match(r'^(&\s*(\'\w+\s+)?(mut\s+)?)?self$', params[0]):
+                sp = params[0]
+                if recv is None:
+                    if not args:
+                        raise Unsupported('R24: method %s called without receiver' % name)
+                    recv = args.pop(0)
+                    # Type::method(&x, ..): the first argument already has the receiver's reference type
+                    binds.append(('vx_self', None, recv))
+                else:
+                    amp = '&mut ' if 'mut' in sp and '&' in sp else ('&' if '&' in sp else '')
+                    if recv == 'self' or recv.startswith('&'):
+                        amp = ''
+                    binds.append(('vx_self', None, amp + recv if amp and not recv == 'self' else recv))
+                params = params[1:]
+                has_self = True
+            else:
+                has_self = False
+                if recv is not None:
+                    raise Unsupported('R24: %s is not a method but is called as one' % name)
+            if len(params) != len(args):
+                raise Unsupported('R24: %s: %d parameters, %d arguments' % (name, len(params), len(args)))
+            body = hbody
+            for pdecl, a in zip(params, args):
+                pm = re.match(r'^(mut\s+)?([A-Za-z_]\w*)\s*:\s*(.*)$', pdecl, re.S)
+                if not pm:
+                    raise Unsupported('R24: parameter pattern of %s' % name)
+                ty = re.sub(r"'\w+\s*", '', pm.group(3))
+                # the helper's parameters get fresh names (they must not capture the caller's variables)
+                fresh = 'vx_p_' + pm.group(2)
+                bmk = code_mask(body)
+                body = ''.join(body[k] for k in range(len(body)))
+                pieces = []
+                last = 0
+                for m_ in re.finditer(r'(?<![\w.])%s\b(?!\s*::)' % re.escape(pm.group(2)), body):
+                    if bmk[m_.start()]:
+                        pieces.append(body[last:m_.start()])
+                        pieces.append(fresh)
+                        last = m_.end()
+                pieces.append(body[last:])
+                body = ''.join(pieces)
+                binds.append(((pm.group(1) or '') + fresh, norm_ws(ty), a))
+            if has_self:
+                # `self` inside the helper is the receiver
+                bm2 = code_mask(body)
+                body = ''.join(body[k] for k in range(len(body)))
+                body = re.sub(r'(?<![\w.])self\b', 'vx_self', body)
+                owner_ty = None
+                if owner is not None:
+                    om = re.match(r'^impl(?:\s*<[^>]*>)?\s+(?:[\w:<>, ]+\s+for\s+)?([\w:]+)', owner.header)
+                    owner_ty = om.group(1) if om else None
+                if owner_ty:
+                    body = re.sub(r'\bSelf\b', owner_ty, body)
+            elif owner is not None:
+                om = re.match(r'^impl(?:\s*<[^>]*>)?\s+(?:[\w:<>, ]+\s+for\s+)?([\w:]+)', owner.header)
+                if om:
+                    body = re.sub(r'\bSelf\b', om.group(1), body)
+            uses_q = '?' in ''.join(c if hbm[k] else ' ' for k, c in enumerate(hbody))
+            after = out[acl + 1:].lstrip()
+            if uses_q and not after.startswith('?'):
+                raise Unsupported('R24: helper %s uses `?` and its result is not propagated with `?` at the call site' % name)
+            tmps = []
+            lets = []
+            for k, (pn, ty, a) in enumerate(binds):
+                ann = (': ' + ty) if ty else ''
+                tmps.append('let vx_a%d%s = %s;' % (k, ann, a))
+                lets.append('let %s%s = vx_a%d;' % (pn, ann, k))
+            new = '{ ' + ' '.join(tmps) + ' ' + ' '.join(lets) + ' ' + norm_ws_keep(body) + ' }'
+            pad = '\n' * max(0, out[start:acl + 1].count('\n') - new.count('\n'))
+            unit.rule_log.append({'rule': 'R24', 'before': norm_ws(out[start:acl + 1])[:120], 'after': ('<body of fn %s (%s:%d) with its parameters bound to the arguments>' % (name, hrel, line_of(hsrc, it.start))), 'where': ctx})
+            out = out[:start] + new + pad + out[acl + 1:]
+    return out
+
+
+def norm_ws_keep(body):
+    """the helper body on one line; line comments are dropped (they would swallow the rest of the line)"""
+    m = code_mask(body)
+    txt = ''.join(c if (m[k] or c not in '\n') else ' ' for k, c in enumerate(body))
+    # remove comments (masked ranges that start with //)
+    outp = []
+    k = 0
+    while k < len(body):
+        if not m[k] and body.startswith('//', k):
+            j = body.find('\n', k)
+            k = len(body) if j < 0 else j
+            continue
+        if not m[k] and body.startswith('/*', k):
+            j = body.find('*/', k)
+            k = len(body) if j < 0 else j + 2
+            continue
+        outp.append(body[k])
+        k += 1
+    return re.sub(r'\s*\n\s*', ' ', ''.join(outp)).strip()
+
+
+
 def rule_selfmut(sig, log):
     new = re.sub(r'\(\s*&\s*self\b', '(&mut self', sig, count=1)
     if new != sig:
@@ -831,8 +1108,9 @@ class Unit(object):
         self.items = []             # extracted non-fn items
         self.cells = {}             # type -> [fields]
         self.lost_aids = []
+        self.gone_fns = []
         self.late_hints = False
-        self.rules = set(['R1', 'R2', 'ATTR', 'R4', 'R5', 'R6', 'R10', 'R11', 'R14', 'R15', 'R17', 'R22', 'R23'])
+        self.rules = set(['R1', 'R2', 'ATTR', 'R4', 'R5', 'R6', 'R10', 'R11', 'R14', 'R15', 'R17', 'R22', 'R23', 'R25', 'R26'])
         self.unit_props = []
         self.lemmas = []
         self.tmpl_fns = []          # hand-written exec/proof fns in template (name, props)
@@ -899,6 +1177,10 @@ class Unit(object):
                 text = rule_R22_fold(text, log)
             if 'R23' in self.rules:
                 text = rule_R23_map_or(text, log)
+            if 'R25' in self.rules:
+                text = rule_R25_filter_count(text, log)
+            if 'R26' in self.rules:
+                text = rule_R26_option_tests(text, log)
         self.last_guard_renames = [r[3] for r in log if len(r) > 3]
         for r in log:
             self.rule_log.append({'rule': r[0], 'before': r[1], 'after': r[2], 'where': ctx})
@@ -1443,7 +1725,20 @@ def emit_fn(unit, loc, dlines, tmpl_where):
         # that body is then the code under contract (logged)
         dflt = _trait_default(unit, src, mask, path)
         if dflt is None:
-            raise
+            # the enclosing impl / mod is still there and only this fn is gone: the function was deleted.  Its own
+            # obligations go with it (logged); what its former callers now do is decided by their contracts.
+            gone = False
+            if len(path) >= 2 and path[-1].startswith('fn '):
+                try:
+                    find_item(src, mask, path[:-1])
+                    gone = not re.search(r'\bfn\s+%s\b' % re.escape(path[-1][3:].strip()), ''.join(c if mask[k] else ' ' for k, c in enumerate(src)))
+                except AnchorLost:
+                    gone = False
+            if not gone:
+                raise
+            unit.gone_fns.append({'fn': ' :: '.join(path), 'file': rel})
+            unit.rule_log.append({'rule': 'GONE', 'before': '%s :: %s' % (rel, ' :: '.join(path)), 'after': 'no function of this name is left in the file: its contract is dropped, its former callers are checked against theirs', 'where': loc})
+            return
         rel, src, mask, it = dflt
         unit.rule_log.append({'rule': 'DEFAULT', 'before': '%s has no `%s`' % (' :: '.join(path[:-1]), path[-1]), 'after': 'the default method of the trait in %s is what runs' % rel, 'where': loc})
     if it.kind != 'fn':
@@ -1764,6 +2059,8 @@ def emit_fn_text(unit, rel, path, fn_id, text, line0, end_line, dlines, tmpl_whe
             text = text[:se] + '{ unimplemented!() }' + '\n' * nl
         a0 = re.match(r'(\s*#\s*\[[^\]]*\]\s*|\s*///[^\n]*\n)*', text).end()
         text = _blank(text[:a0]) + text[a0:]
+    else:
+        text = rule_R24_inline(unit, rel, text, ctx)
     text = unit.rewrite(text, ctx)
     guard_renames = list(unit.last_guard_renames)
     if guard_renames:
@@ -1785,7 +2082,20 @@ def emit_fn_text(unit, rel, path, fn_id, text, line0, end_line, dlines, tmpl_whe
             tm = code_mask(text)
             hits = [m for m in rx.finditer(text) if tm[m.start()]]
             if not hits:
-                raise AnchorLost('%s: `%s?` not found' % (fn_id, sec[1]))
+                # renamed locals (or an inlined helper): the expression with its local names as wildcards
+                try:
+                    m_, _mp = _find_anchor_fuzzy(text, tm, sec[1], 0)
+                    k_ = m_.end()
+                    while k_ < len(text) and text[k_].isspace():
+                        k_ += 1
+                    hits = [_Span(m_.start(), k_ + 1)] if text[k_:k_ + 1] == '?' else []
+                    if hits:
+                        hits = [type('H', (), {'start': (lambda self, a=m_.start(): a), 'end': (lambda self, b=k_ + 1: b), 'group': (lambda self, i, t=text[m_.start():k_ + 1]: t)})()]
+                except AnchorLost:
+                    hits = []
+            if not hits:
+                unit.lost_aids.append({'fn': fn_id, 'aid': 'desugaring of `%s?` (expression not present any more)' % sec[1]})
+                continue
             for m in reversed(hits):
                 new = '(match %s { Ok(vx_v) => vx_v, Err(vx_e) => return Err(core::convert::From::from(vx_e)) })' % text[m.start():m.end() - 1].strip()
                 unit.rule_log.append({'rule': 'R12', 'before': norm_ws(m.group(0)), 'after': norm_ws(new)[:100], 'where': ctx})
